@@ -368,6 +368,10 @@ def gen(rnd, *, core=False, res_choices=(60, 60, 30, 15), subslot=True, alap=Non
             pool = resources[:1] if (contention and rnd.random() < 0.7) else resources
             k = 2 if (teams and len(pool) >= 2 and rnd.random() < 0.2) else 1
             t["alloc"] = [r["id"] for r in rnd.sample(pool, k)]
+            if not core and rnd.random() < 0.08:
+                # the same resource named twice in one allocation (or in two allocate statements): it still is ONE resource
+                # (seeded change C01-f released the unused tail of the last slot once per MENTION)
+                t["alloc_dup"] = rnd.choice(["tail", "split", "head"])
             if alts and n_res >= 2 and k == 1 and rnd.random() < 0.3:
                 others = [r["id"] for r in resources if r["id"] not in t["alloc"]]
                 t["alt"] = rnd.sample(others, 1 if rnd.random() < 0.7 else min(2, len(others)))
@@ -689,12 +693,20 @@ def render(m, refrnd=None, precrnd=None, extra_header=None, scenarios=None, trai
         if "c_effort_min" in t:
             L.append("%s  effort %dmin" % (i, t["c_effort_min"]))      # on a container: inherited by leaves without an effort of their own
         if "effort_min" in t:
-            if not t.get("effort_inherited"):
+            if not t.get("effort_inherited") and not t.get("effort_late"):
                 L.append("%s  effort %dmin" % (i, t["effort_min"]))
-            a = ", ".join(t["alloc"])
+            ids_ = list(t["alloc"])
+            dupmode = t.get("alloc_dup") if not t.get("alt") else None
+            if dupmode == "tail":
+                ids_ = ids_ + [ids_[0]]
+            elif dupmode == "head":
+                ids_ = [ids_[-1]] + ids_
+            a = ", ".join(ids_)
             if t.get("alt"):
                 a += " { alternative " + ", ".join(t["alt"]) + " }"
             L.append("%s  allocate %s" % (i, a))
+            if dupmode == "split":
+                L.append("%s  allocate %s" % (i, t["alloc"][0]))      # a second statement naming a member again
         if "priority" in t:
             L.append("%s  priority %d" % (i, t["priority"]))
         if t.get("task_alap"):
